@@ -975,6 +975,35 @@ impl Ctx<'_> {
     }
 }
 
+/// The payload items an object carries, irrespective of its validity.
+pub fn raw_items_of(payload: &Payload) -> RawItems {
+    let mut items = RawItems::default();
+    match payload {
+        Payload::Roa { asn, v4, v6 } => {
+            for (p, max) in v4 {
+                items.origins.push((*asn, Pfx::V4(*p), max.unwrap_or(p.len)));
+            }
+            for (p, max) in v6 {
+                items.origins.push((*asn, Pfx::V6(*p), max.unwrap_or(p.len)));
+            }
+        }
+        Payload::Aspa { customer, providers } => {
+            items.aspas.push((*customer, providers.iter().copied().collect()));
+        }
+        Payload::Router { asns, ec } => {
+            let key = crate::pki::pool().ec_pub(*ec);
+            for asn in asns {
+                items.keys.push((
+                    key.key_identifier().as_slice().to_vec(), *asn,
+                    key.to_info_bytes().to_vec(),
+                ));
+            }
+        }
+        _ => { }
+    }
+    items
+}
+
 /// The largest provider set that fits into an RTR ASPA PDU.
 pub const MAX_ASPA_PROVIDERS: usize = 16380;
 
